@@ -362,15 +362,18 @@ def main(tier, seed):
     hists = [h for L in range(1, maxlen + 1) for h in itertools.product(EVENTS, repeat=L) if any(e[0] == 'x' for e in h)]
     k = seed % 16
     shards = split(hists, 64)
-    p = merge_all(run_shards(run_hists, [(s, bound) for s in shards[k:] + shards[:k]]))
+    defs_, datas_ = [e for e in EVENTS if e[0] == 'd'], [e for e in EVENTS if e[0] == 'x']
+    # two separate runs of definition messages with data in between and after: every history of the shape
+    # definition, data, definition, data is added to the ones up to the length bound
+    shape4 = [h for h in itertools.product(defs_, datas_, defs_, datas_)] if maxlen < 4 else []
+    p = merge_all(run_shards(run_hists, [(s, bound) for s in shards[k:] + shards[:k]] + [(s, 0) for s in split(shape4, 32)]))
     allstates = {abstract_state(h, (WIDTHS[0], SCALES[0], REFS[0], UNITS[0])) for h in hists}
-    rep.add_part('histories', p, bounds={'events': EVENTS, 'max_length': maxlen, 'histories': len(hists),
+    rep.add_part('histories', p, bounds={'events': EVENTS, 'max_length': maxlen, 'histories': len(hists) + len(shape4),
+                                         'definition_data_definition_data_histories': len(shape4),
                                          'definition_deviations': bound,
                                          'abstract_states_default_definitions': len(allstates)})
     # a cached compiled template needs: definition, data, another definition, data -- every history of that shape is added
     # to the ones up to the length bound
-    defs_, datas_ = [e for e in EVENTS if e[0] == 'd'], [e for e in EVENTS if e[0] == 'x']
-    shape4 = [h for h in itertools.product(defs_, datas_, defs_, datas_)] if maxlen < 4 else []
     p = merge_all(run_shards(run_hists, [(s, bound - 1, 'compiled') for s in shards[k:] + shards[:k]] +
                              [(s, 0, 'compiled') for s in split(shape4, 32)]))
     rep.add_part('histories-compiled', p, bounds={'events': EVENTS, 'max_length': maxlen, 'histories': len(hists) + len(shape4),
